@@ -7,7 +7,10 @@ from __future__ import annotations
 import ast
 
 from ..astutil import call_attr, calls_in, unparse, walk_local
+import re
+
 from ..cfg import CFG
+from ..dataflow import resolved_text
 from ..report import Finding, Report
 from ..srcindex import AnalysisError, Index
 
@@ -194,6 +197,43 @@ def check(idx: Index, rep: Report, tier: str) -> str:
         r3.ok(f.fq, f"{f.loc} column {idx_txt} computed {'before' if before else 'after'} the append")
     else:
         r3.fail(f.fq, Finding("C26.R3", f.fq, "column-after-append", f"pending rows get the new zero column at `{idx_txt}` evaluated {'before' if before else 'after'} local_exprs.append: the column lands after the constant term, so an existing constant becomes the coefficient of the new local", f.loc))
+
+    # ---- R4 construction-time folds of the division-like operators
+    r4 = rep.rule("C26.R4", "floordiv / ceildiv / mod constructors return the constant fold, the node built from (kind, self, other), or a fold from the reviewed identity table under that identity's divisibility guard", floor=3)
+    from ..astutil import guard_facts
+
+    for nm, kind in (("__floordiv__", "FloorDiv"), ("ceil_div", "CeilDiv"), ("__mod__", "Mod")):
+        m = cls.method(nm)
+        if m is None:
+            raise AnalysisError(f"AffineExpr.{nm} not found")
+        other = m.node.args.args[1].arg
+        cfgm = CFG(m.node)
+        for rt in [x for x in walk_local(m.node) if isinstance(x, ast.Return) and x.value is not None]:
+            t = resolved_text(cfgm, rt.value, cfgm.node_of(rt))
+            inst = f"{m.fq}:{unparse(rt.value)[:40]}"
+            loc = f"{AE}:{rt.lineno}"
+            if f"_try_fold_constant({other}, AffineBinaryOpKind.{kind})" in t or t == f"AffineBinaryOpExpr(AffineBinaryOpKind.{kind}, self, {other})":
+                r4.ok(inst, f"{loc} {nm}: {unparse(rt.value)[:60]}")
+                continue
+            facts = [(unparse(x), pol) for x, pol in guard_facts(m.node, rt)]
+            divis = [re.fullmatch(r"(.+) % (.+) == 0", x) for x, pol in facts if pol]
+            divis = [d for d in divis if d]
+            is_zero = t in ("AffineExpr.constant(0)", "AffineConstantExpr(0)")
+            is_self = t == "self"
+            one = (f"{other}.value == 1", True) in facts
+            if kind == "Mod" and is_zero and one:
+                r4.ok(inst, f"{loc} e mod 1 = 0")
+            elif kind in ("FloorDiv", "CeilDiv") and is_self and one:
+                r4.ok(inst, f"{loc} e div 1 = e")
+            elif divis and ("AffineBinaryOpKind.Mul" in " ".join(x for x, _ in facts)):
+                a, b = divis[0].group(1), divis[0].group(2)
+                mult_first = ("rhs.value" in a) and (a != f"{other}.value") and b == f"{other}.value"
+                if mult_first and (is_zero if kind == "Mod" else True):
+                    r4.ok(inst, f"{loc} (e * k) {kind} c folded under k % c == 0")
+                else:
+                    r4.fail(inst, Finding("C26.R4", m.fq, f"divisibility-reversed:{kind}", f"`{unparse(rt)}` folds (e * k) {kind.lower()} c under `{divis[0].group(0)}`; the identity holds when the multiplier is a multiple of the divisor (`k % c == 0`), not when the divisor is a multiple of the multiplier: (d0 * 2) mod 4 is not 0", loc))
+            else:
+                raise AnalysisError(f"{m.fq}: `{unparse(rt)}` is a construction-time simplification that is not in the reviewed identity table")
 
     return (
         "Table agreement between the six dispatchers over AffineBinaryOpKind (binary, eval, constant folding, token "
